@@ -239,6 +239,7 @@ class Lift:
         self.derive = None     # None = KEEP_DERIVES, else the subset to keep
         self.no_body = False
         self.no_canary = False
+        self.stub = False      # emit `#[verifier::external_body] <signature> <contract> { unimplemented!() }` only
         self.pub_fields = False  # R2b: private named fields of a lifted struct become pub (visibility only)
         self.expand = {}       # macro name -> (params, body) from its macro_rules! text (rule R4)
         self.line = 0
@@ -631,7 +632,18 @@ def lift_item(src, lift):
                     continue
                 at_field_start = False
                 j += 1
-    segs = transform(src, lo, hi, lift, report, inserts, replaced, ret_at)
+    if it['kind'] == 'fn' and lift.stub:
+        bo = it['body_open']
+        sig_replaced = {k: v for k, v in replaced.items() if k < bo}
+        segs = [('#[verifier::external_body]\n', None)]
+        segs += transform(src, lo, bo - 1, lift, report, {k: v for k, v in inserts.items() if k < bo}, sig_replaced, ret_at)
+        for text in inserts.get(bo, ()):
+            if lift.spec and text.strip().startswith(lift.spec[0].strip()[:12]):
+                segs.append((text, None))
+        segs.append(('{ unimplemented!() }\n', None))
+        report['STUB'] = 1
+    else:
+        segs = transform(src, lo, hi, lift, report, inserts, replaced, ret_at)
     info = dict(kind=it['kind'], orig_start_line=src.line_of(toks[it['kw']].start),
                 orig_end_line=src.line_of(toks[it['end']].start))
     return segs, report, info
